@@ -276,6 +276,8 @@ def run_stage(stage, workdir, seed, tier, result):
     scripts.sort(key=lambda x: json.dumps(x, sort_keys=True))
     if stage.post:
         scripts = stage.post(scripts, seed, tier)
+    if not scripts:
+        raise ToolError('stage %s produced no scenario (vacuous model instance?)' % tag)
     for i, s in enumerate(scripts):
         s['sc'] = i
     spath = os.path.join(workdir, tag + '.scripts.ndjson')
